@@ -241,6 +241,48 @@ class Gen:
             self.observe_hist(oid)
         sc.add("heads", "heads %s" % hx(oid), kind="plain", id=oid)
 
+    def evolve(self, oid):
+        """one path through several versions: changed, left alone, changed back, removed, re-added"""
+        sc, rng = self.sc, self.rng
+        n = len(sc.steps)
+        pattern = rng.choice([["A", "B", "B"], ["A", "B", "A"], ["A", "B", "B", "A", "A"], ["A", "A", "B"], ["A", "-", "A"], ["A", "B", "-", "B"], ["A", "B", "C", "C", "B"]])
+        path = rng.choice(["evo.txt", "d1/evo.txt"])
+        prev = None
+        for i, c in enumerate(pattern):
+            if c != prev:
+                if c == "-":
+                    sc.add("rm", "rm %s 0 %s" % (hx(oid), hx(path)), kind="mut", id=oid)
+                else:
+                    rel = "evo%d_%d/%s" % (n, i, path.rsplit("/", 1)[-1])
+                    self.mkfile(rel, ("content %s of %s" % (c, path)).encode())
+                    sc.add("cpx", "cpx %s 0 %s %s" % (hx(oid), hx(path), hx(rel)), kind="mut", id=oid)
+            # something always changes so that the commit goes through
+            rel = "evo%d_%d/filler.txt" % (n, i)
+            self.mkfile(rel, ("filler %d %d" % (n, i)).encode())
+            sc.add("cpx", "cpx %s 0 %s %s" % (hx(oid), hx("fill/%d_%d.txt" % (n, i)), hx(rel)), kind="mut", id=oid)
+            prev = c
+            self.commit(oid)
+        self.observe_staged(oid)
+
+    def overwrite_staged(self, oid):
+        """a path added in the staged version is overwritten by an internal copy/move of committed content"""
+        sc, rng = self.sc, self.rng
+        files, _ = self.known.get(oid, ([], []))
+        n = len(sc.steps)
+        rel = "ow%d/new.txt" % n
+        self.mkfile(rel, ("fresh %d" % n).encode())
+        dst = rng.choice(["ow.txt", "d1/ow.txt"])
+        sc.add("cpx", "cpx %s 0 %s %s" % (hx(oid), hx(dst), hx(rel)), kind="mut", id=oid)
+        if files:
+            src = rng.choice(files)
+            if rng.random() < 0.6:
+                sc.add("cpi", "cpi %s %s 0 %s %s" % (hx(oid), rng.choice(["-", "v1"]), hx(dst), hx(src)), kind="mut", id=oid)
+            else:
+                sc.add("mvi", "mvi %s %s %s" % (hx(oid), hx(dst), hx(src)), kind="mut", id=oid)
+        self.observe_staged(oid)
+        self.commit(oid)
+        self.observe_staged(oid)
+
     def diverge(self, oid):
         """one client stages on the current head; the other purges the object, creates it again and commits
         fewer, as many or more versions; then the first client commits its now baseless staged version"""
@@ -284,6 +326,13 @@ class Gen:
         oid = rng.choice(self.ids)
         if self.two_clients and rng.random() < 0.12:
             self.diverge(oid)
+            return
+        r0 = rng.random()
+        if self.observe_history and r0 < 0.10:
+            self.evolve(oid)
+            return
+        if 0.10 <= r0 < 0.17:
+            self.overwrite_staged(oid)
             return
         if self.two_clients and rng.random() < 0.35:
             sc.add("client", "client %d" % rng.randint(0, 1), kind="skipd")
